@@ -393,7 +393,7 @@ func genContainer(g *Gen, prop string, i int) Group {
 	if (prop == "C02" || prop == "C05" || prop == "C07" || prop == "C08" || prop == "C03") && i%11 == 9 {
 		return g.embeddedCase(i)
 	}
-	if (prop == "C10" || prop == "C14" || prop == "C12" || prop == "C15") && i%8 == 3 {
+	if (prop == "C10" || prop == "C14" || prop == "C12" || prop == "C15" || prop == "C11") && i%8 == 3 {
 		return g.multiOutCase(i)
 	}
 	if (prop == "C01" || prop == "C02" || prop == "C03" || prop == "C10" || prop == "C07") && i%8 == 6 {
@@ -413,7 +413,14 @@ func genContainer(g *Gen, prop string, i int) Group {
 			if g.p(0.5) {
 				bad := &Reg{ID: g.nextRid, Life: g.life([3]int{1, 1, 1}), Form: Form{Kind: "inst", Ty: g.n(8)}, Dyn: []int{0}}
 				g.nextRid++
-				switch g.n(6) {
+				switch g.n(8) {
+				case 6, 7:
+					// a second registration of an identity that is taken (plain or keyed)
+					if len(regs) > 0 {
+						cp := *regs[g.n(len(regs))]
+						cp.ID = bad.ID
+						bad = &cp
+					}
 				case 0:
 					bad.Bad = 1
 				case 1:
@@ -737,7 +744,8 @@ func genC17(g *Gen, i int) Group {
 			// remove a single-identity registration (or something that is not there)
 			s := regs[g.n(len(regs))]
 			outs := regOutputs(s)
-			if len(outs) == 1 && outs[0].group == 0 && outs[0].ty != tVoid {
+			// (also a named scope initializer: the identity (struct{}, name))
+			if len(outs) == 1 && outs[0].group == 0 && (outs[0].ty != tVoid || (outs[0].name != 0 && outs[0].name < 1000)) {
 				if outs[0].name != 0 {
 					ops = append(ops, Op{Kind: "removekeyed", Ty: outs[0].ty, Name: outs[0].name})
 				} else {
@@ -842,12 +850,13 @@ func genC06(g *Gen, i int) Group {
 		}
 		return out
 	}
-	if i%5 == 2 {
+	if i%5 == 2 || i%10 == 3 {
 		// one output of a multi-output registration removed and replaced: the same history, built again and again
-		// (what runs first at Build is up to hash-map order; the outcome must not be)
-		g.forceReplace = true
+		// (what runs first at Build is up to hash-map order; the outcome must not be); or: a multi-output
+		// registration refused after it had entered two members of one group
+		g.forceReplace, g.forceBlock = i%5 == 2, i%10 == 3
 		one := g.multiOutCase(i).Cases[0]
-		g.forceReplace = false
+		g.forceReplace, g.forceBlock = false, false
 		var cs []Case
 		for v := 0; v < 6; v++ {
 			cp := make([]Op, len(one.Ops))
@@ -1034,16 +1043,16 @@ func (g *Gen) multiOutCase(i int) Group {
 	}
 	m := &Reg{ID: g.nextRid, Life: life}
 	g.nextRid++
-	if g.p(0.55) {
+	if g.p(0.55) || g.forceBlock {
 		fs := []Field{{Ty: pick(0)}, {Ty: pick(1), Name: 1 + g.n(2)}, {Ty: pick(2)}}
-		if g.p(0.6) {
+		if g.p(0.6) || g.forceBlock {
 			grp := 1 + g.n(2)
 			fs = append(fs, Field{Ty: pick(3), Group: grp})
-			if g.p(0.5) {
+			if g.p(0.5) || g.forceBlock {
 				fs = append(fs, Field{Ty: fs[3].Ty, Group: grp}) // a second member of the same group from the same constructor
 			}
 		}
-		if g.p(0.08) {
+		if g.p(0.08) && !g.forceBlock {
 			fs[1].Group = 1 + g.n(2) // a field with both tags: the registration is refused as a whole (F33)
 		}
 		g.rnd.Shuffle(len(fs), func(a, b int) { fs[a], fs[b] = fs[b], fs[a] })
@@ -1086,7 +1095,7 @@ func (g *Gen) multiOutCase(i int) Group {
 	} else if g.p(0.06) {
 		allNil = true
 	}
-	if g.forceReplace {
+	if g.forceReplace || g.forceBlock {
 		allNil = false // (which singletons were built before a failing one is up to the order: not a C06 matter)
 	}
 	if allNil {
@@ -1123,7 +1132,7 @@ func (g *Gen) multiOutCase(i int) Group {
 	base := &Reg{ID: g.nextRid, Life: Singleton, Form: Form{Kind: "ctor", Rets: []int{tys[7]}}, Dyn: []int{tys[7]}, CFail: []bool{false}}
 	g.nextRid++
 	ops = append(ops, Op{Kind: "add", Reg: base})
-	if m.Form.Kind == "result" && g.p(0.15) {
+	if m.Form.Kind == "result" && (g.p(0.15) || g.forceBlock) {
 		// one plain field's identity is taken already: the whole registration is refused, after some of its fields
 		// (group members among them) had been entered; nothing of it may stay behind
 		for _, f := range m.Form.Fields {
